@@ -1,5 +1,6 @@
 import OnetVerif.Model.C19Core
 import OnetVerif.Model.C19Net
+import OnetVerif.Model.C19Files
 /-! Model for property C19 — simulation statistics.  The model proper is in `Model/C19Core.lean`
 (accumulators, result sets, averaging, bucket rules, `Monitor.update`, rule parsing) and
 `Model/C19Net.lean` (the monitor's network side: reporting connections, their handler routines, the
@@ -144,13 +145,16 @@ def showString (st : St) : String :=
   joinOr "," (st.static.map fun kv => kv.1 ++ "=" ++ kv.2) ++ " " ++
     joinOr ";" (sortStr (st.vals.map fun kv => showFields kv.2.values))
 
-def showHeader (st : St) : String :=
-  joinOr "," (st.static.map (·.1) ++
-    st.vals.flatMap fun kv => ["_min", "_max", "_avg", "_sum", "_dev"].map (kv.1 ++ ·))
+/-- the suffixes of `Value.HeaderFields()` -/
+def colSuffix (i : Nat) : String := (["_min", "_max", "_avg", "_sum", "_dev"][i]?).getD ""
 
+/-- the line `WriteHeader` writes: static columns, then `Stats.headerCols` -/
+def showHeader (st : St) : String :=
+  joinOr "," (st.staticHeader ++ st.headerCols.map fun c => c.1 ++ colSuffix c.2)
+
+/-- the line `WriteValues` writes (canonical): static columns, then `Stats.valueCols` -/
 def showValues (st : St) : String :=
-  joinOr "," (st.static.map (·.2)) ++ " " ++
-    joinOr "," (st.vals.flatMap fun kv => kv.2.values.map fun x => showF (csv6 x))
+  joinOr "," st.staticValues ++ " " ++ joinOr "," (st.valueCols.map fun x => showF (csv6 x))
 
 def showAcc (v : Value Float) : String :=
   toString v.n ++ "/" ++ "/".intercalate ([v.min, v.max, v.sum, v.newM, v.dev].map showF)
@@ -216,6 +220,67 @@ def parseRecs (s : String) : Option (List M) :=
 rules, quotes are removed by `RunConfig.Get`) and that `newBucketRule` accepts -/
 def ruleOfField (bs : List Nat) : Option Rule :=
   if bs.any (fun c => c = 45 || c = 32 || c = 9 || c = 34 || c = 39) then none else parseRule bs
+
+/-- one run of `RunTests`: what `RunTest` returns — the global result set, then the buckets by index — or the
+observation of a refused line.  `runIdx`: the field `run` of the configuration. -/
+def simRun (runIdx : Nat) (hosts bf depth buckets parts : String) : Except String (List St) :=
+  let groups : Option (List (List (List Nat))) :=
+    if buckets = "-" then some [] else (buckets.splitOn ";").mapM fun g => (g.splitOn ",").mapM Util.unhex
+  match posNat hosts, posNat bf, posNat depth, groups, (parts.splitOn ";").mapM parseRecs with
+  | some _, some _, some _, some gs, some futures =>
+    match gs.mapM (·.mapM ruleOfField) with
+    | none => .error "err"
+    | some rules =>
+      let txt := " ".intercalate (gs.map fun g => "-".intercalate (g.map fun b => String.ofList (b.map Char.ofNat)))
+      let st : St := { static := [("hosts", hosts), ("bf", bf)] ++ (if gs.isEmpty then [] else [("buckets", txt)]) ++
+                                 [("depth", depth), ("run", toString runIdx), ("runwait", "6s")], vals := [] }
+      let m : Monitor String Float :=
+        { global := st, buckets := (List.range rules.length).foldl (fun bs (i : Nat) => bs.set (Int.ofNat i) (rules[i]?.getD []) st) [] }
+      let k := futures.length
+      let acts := (List.range k).map Act.accept ++
+        (List.range k).flatMap (fun i => (futures[i]?.getD []).map fun _ => Act.write i) ++
+        (List.range k).map Act.hangup ++
+        (List.range k).flatMap (fun i => (futures[i]?.getD []).flatMap fun r =>
+          if isEnd r.name then [Act.decode i] else [.decode i, .deliver i]) ++
+        (List.range k).map Act.eof
+      match runNet (Net.start m futures) acts with
+      | some n' =>
+        if n'.finished then
+          .ok (n'.mon.global :: (List.range rules.length).filterMap fun i =>
+                (n'.mon.buckets.find? (·.idx = Int.ofNat i)).map (·.stats))
+        else .error "stuck"
+      | none => .error "stuck"
+  | _, _, _, _, _ => .error "bad-op"
+
+/-- a run token of a `runtests` line: `E` (the run fails) or `hosts~bf~depth~buckets~parts` -/
+def simRunTok (i : Nat) (tok : String) : Except String (Option (List St)) :=
+  if tok = "E" then .ok none else
+  match tok.splitOn "~" with
+  | [h, b, d, bk, ps] => (simRun i h b d bk ps).map some
+  | _ => .error "bad-op"
+
+def simRunToks : Nat → List String → Except String (List (Option (List St)))
+  | _, [] => .ok []
+  | i, t :: ts =>
+    match simRunTok i t with
+    | .error e => .error e
+    | .ok r => match simRunToks (i + 1) ts with
+      | .error e => .error e
+      | .ok rs => .ok (r :: rs)
+
+/-- `^[a-z][a-z0-9]{0,11}$` -/
+def fileNameOk (s : String) : Bool :=
+  match s.toList with
+  | [] => false
+  | c :: r => c.isLower && r.length ≤ 11 && r.all fun x => x.isLower || x.isDigit
+
+/-- `-` or `^[0-9a-z:+]{1,8}$` -/
+def rangeOk (s : String) : Bool :=
+  s = "-" || (1 ≤ s.length && s.length ≤ 8 && s.toList.all fun x => x.isLower || x.isDigit || x = ':' || x = '+')
+
+def renderLine : Line St → String
+  | .header st => "H:" ++ showHeader st
+  | .values st => "V:" ++ showValues (st.readout .values)
 
 def step (s : State) (toks : List String) : State × String :=
   match toks with
@@ -394,6 +459,22 @@ def step (s : State) (toks : List String) : State × String :=
           else (s, "stuck")
         | none => (s, "stuck")
     | _, _, _, _, _, _ => (s, "bad-op")
+  | "runtests" :: name :: rng :: pre :: r1 :: rs =>
+    -- `simul.RunTests` (simul/build.go:103-182) in a directory of its own that holds `pre` result files
+    match pre.toNat?, s.mon with
+    | some npre, none =>
+      if !fileNameOk name || !rangeOk rng || npre > 6 || toString npre ≠ pre then (s, "bad-op") else
+      match simRunToks 0 (r1 :: rs) with
+      | .error e => (s, e)
+      | .ok runs =>
+        let range : List Nat := if rng = "-" then [] else rng.toList.map Char.toNat
+        let written := runTests range runs
+        let files := (List.range (max npre written.length)).map fun j =>
+          let old := if j < npre then ["H:old" ++ toString j] else []
+          let content := if j < written.length then fileAfter range old ((written[j]?.getD []).map renderLine) else old
+          resultFileName name j ++ ":" ++ joinOr "|" content
+        (s, if files.isEmpty then "none" else " ".intercalate (sortStr files))
+    | _, _ => (s, "bad-op")
   | ["proxied", gname, hosts, bf, parts] =>
     -- clients that report through the proxy (tcpproxy.go `serve`: a relay, both directions copied until one side
     -- ends): one idle connection straight to the monitor keeps `Listen` alive; every client, whether it ends in an
